@@ -196,7 +196,43 @@ def run(L, tier, only=None):
     L.lemma_time_budget = budget0
 
 
+def join_lemma(L):
+    """concat / join of a vector whose element is a string: the text built is the same whether or not that element
+    carries tags (the real join_str_vec on the text model: the string is K symbolic characters)"""
+    from e2.strmodel import mk_text, StrBuf
+    txt, cons = mk_text("js", 2)
+    plain = Enum("cell::Cell", "Str", Struct("cell::Cell::Str", {0: txt}))
+    fn = [f for n_, f in L.ex.funcs.items() if n_.endswith("join_str_vec") and "tests" not in n_][0]
+    none_sep = Enum("std::option::Option<arcstr::ArcStr>", "None", None)
+    results = []
+    L.ex.string_model = True
+    try:
+        for elem in (plain, tagged(L, clone_val(plain), "je")):
+            pre = Pre(L, stack=[])
+            vec = Vec("cell::Cell", None, [elem])
+            outs = L.run(fn, [pre.xs, Ref(Box(vec, name="jvec")), Ref(Box(none_sep, name="jsep"))], pre.pc + cons, pre.roots())
+            results.append(outs)
+    finally:
+        L.ex.string_model = False
+    L.witness(results[0], lambda o: o.kind == "return" and o.value.variant == "Ok", "join of a string element succeeds")
+    cex = lambda m: {"lines": ["eval [ \"ab\" ] concat", "stack", "eval drop [ \"ab\" #{ 1 \"t\" } with-tags ] concat", "stack"], "expect": [("no_panic",), ("stacks_equal", [0, 1])]}
+    for o1 in results[0]:
+        for o2 in results[1]:
+            if o1.kind != "return" or o2.kind != "return":
+                continue
+            if o1.value.variant != o2.value.variant:
+                L.require(o2, False, "join: same outcome with and without tags on a string element", extra_pc=list(o1.st.pc), cex=cex)
+                continue
+            if o1.value.variant == "Ok":
+                a, b = o1.value.payload.fields[0], o2.value.payload.fields[0]
+                if not (isinstance(a, StrBuf) and isinstance(b, StrBuf)):
+                    raise Unsupported("join result is not a modelled string: %r / %r" % (a, b))
+                L.require(o2, veq(L.ex, a, b), "join: the text built is the same with and without tags on a string element", extra_pc=list(o1.st.pc), cex=cex)
+
+
 def run_structural(L, only):
+    if not only or "join" in only:
+        L.lemma("C13 concat/join see through tags on string elements", join_lemma)
     if not only or "with-tags" in only:
         L.lemma("C13 with_tags", with_tags_lemma())
     if not only or "order" in only:
